@@ -320,8 +320,11 @@ type Comp struct {
 	// the front-matter fences: "" none, "open", "close", "both" (two spaces).
 	EOL   string `json:"eol,omitempty"`
 	Fence string `json:"fence,omitempty"`
-	Req   []Req  `json:"req,omitempty"`
-	Incs  []Inc  `json:"incs,omitempty"`
+	// FMStyle "plain": front-matter strings that are safe as YAML plain scalars are written
+	// unquoted (title: Specials --- today only), lists of such strings in block style (- a---b).
+	FMStyle string `json:"fm_style,omitempty"`
+	Req     []Req  `json:"req,omitempty"`
+	Incs    []Inc  `json:"incs,omitempty"`
 }
 
 // Case is a file set plus page data.
@@ -332,6 +335,14 @@ type Case struct {
 	// (also chained: NAME.key[0]) and "NAME|len". Asserted where the model has a container
 	// (for len: also an ASCII string) under NAME, left open elsewhere.
 	Reads []string `json:"reads,omitempty"`
+	// Entry: how the page is rendered: "" = Template API (NewFS(...).Load(page).Fill(data).Render),
+	// "vue-render" = NewVue(fs).Render(w, page, data), "vue-fragment" = NewVue(fs).RenderFragment.
+	// Root: the Go shape of the page data: "" = map[string]any, "mapss" = map[string]string (every
+	// value a string), "mapsl" = map[string][]string, "embed" = a struct with an embedded struct,
+	// "embedptr" = pointer to a struct with an embedded struct pointer (fields author, Count, title,
+	// Tags; see rootOuter). A typed root is also compared with the same case on a map[string]any root.
+	Entry string `json:"entry,omitempty"`
+	Root  string `json:"root,omitempty"`
 	// PageCRLF: page.vuego is written with CRLF line endings.
 	PageCRLF bool              `json:"page_crlf,omitempty"`
 	Data     map[string]vals.V `json:"data,omitempty"`
@@ -522,6 +533,38 @@ func body(c Case, id string, incs []Inc, short bool, slot string) string {
 	return b.String()
 }
 
+var plainScalarRe = regexp.MustCompile(`^[A-Za-z][A-Za-z0-9 -]*[A-Za-z0-9-]$`)
+
+func plainScalar(s string) bool {
+	switch strings.ToLower(s) {
+	case "true", "false", "null", "yes", "no", "on", "off", "y", "n":
+		return false
+	}
+	return plainScalarRe.MatchString(s) && !strings.Contains(s, " - ")
+}
+
+// plainYAML returns " text" for a string that is safe as a YAML plain scalar, a block list for a
+// non-empty list of such strings, "" otherwise (the value is then written as JSON).
+func plainYAML(v any) string {
+	switch x := v.(type) {
+	case string:
+		if plainScalar(x) {
+			return " " + x
+		}
+	case []any:
+		out := ""
+		for _, e := range x {
+			s, isStr := e.(string)
+			if !isStr || !plainScalar(s) {
+				return ""
+			}
+			out += "\n  - " + s
+		}
+		return out
+	}
+	return ""
+}
+
 func usedWrappers(c Case) []string {
 	used := map[string]bool{}
 	note := func(incs []Inc) {
@@ -583,6 +626,8 @@ func files(c Case, short bool) map[string]string {
 					fmt.Fprintf(&b, "%s:\n", k)
 				case v == nil && cp.NullAs == "tilde":
 					fmt.Fprintf(&b, "%s: ~\n", k)
+				case cp.FMStyle == "plain" && plainYAML(v) != "":
+					fmt.Fprintf(&b, "%s:%s\n", k, plainYAML(v))
 				default:
 					fmt.Fprintf(&b, "%s: %s\n", k, jsonOf(v))
 				}
@@ -611,21 +656,104 @@ func files(c Case, short bool) map[string]string {
 	return out
 }
 
-func render(c Case, short bool) (string, error) {
+// Root data shapes that cannot be flattened into a map[string]any up front: the variables are
+// reached through the original value (by json tag, or by Go name for untagged fields).
+type rootInner struct {
+	Author string `json:"author"`
+	Count  int
+}
+type rootOuter struct {
+	rootInner
+	Title string `json:"title"`
+	Tags  []string
+}
+type rootOuterP struct {
+	*rootInner
+	Title string `json:"title"`
+	Tags  []string
+}
+
+var structRootNames = []string{"author", "Count", "title", "Tags"}
+
+// buildRoot builds the page data in the shape root; ok=false when the case's data do not fit it.
+func buildRoot(c Case, root string) (any, bool) {
+	switch root {
+	case "":
+		data := map[string]any{}
+		for k, v := range c.Data {
+			data[k] = v.Go()
+		}
+		return data, true
+	case "mapss":
+		data := map[string]string{}
+		for k, v := range c.Data {
+			s, isStr := v.Go().(string)
+			if !isStr {
+				return nil, false
+			}
+			data[k] = s
+		}
+		return data, true
+	case "mapsl":
+		data := map[string][]string{}
+		for k, v := range c.Data {
+			l, isList := v.Go().([]string)
+			if !isList {
+				return nil, false
+			}
+			data[k] = l
+		}
+		return data, true
+	case "embed", "embedptr":
+		if len(c.Data) != len(structRootNames) {
+			return nil, false
+		}
+		a, ok1 := c.Data["author"].Go().(string)
+		n, ok2 := c.Data["Count"].Go().(int)
+		ti, ok3 := c.Data["title"].Go().(string)
+		tg, ok4 := c.Data["Tags"].Go().([]string)
+		if !ok1 || !ok2 || !ok3 || !ok4 {
+			return nil, false
+		}
+		if root == "embed" {
+			return rootOuter{rootInner{a, n}, ti, tg}, true
+		}
+		return &rootOuterP{&rootInner{a, n}, ti, tg}, true
+	}
+	return nil, false
+}
+
+func render(c Case, short bool) (string, error) { return renderAs(c, short, c.Root) }
+
+func renderAs(c Case, short bool, root string) (string, error) {
 	m := fstest.MapFS{}
 	for k, v := range files(c, short) {
 		m[k] = &fstest.MapFile{Data: []byte(v)}
+	}
+	data, ok := buildRoot(c, root)
+	if !ok {
+		return "", fmt.Errorf("malformed case: data do not fit root shape %q", root)
+	}
+	var buf bytes.Buffer
+	switch c.Entry {
+	case "vue-render", "vue-fragment":
+		vue := vuego.NewVue(m)
+		if short {
+			vuego.WithComponents()(vue)
+		}
+		var err error
+		if c.Entry == "vue-render" {
+			err = vue.Render(&buf, "page.vuego", data)
+		} else {
+			err = vue.RenderFragment(&buf, "page.vuego", data)
+		}
+		return buf.String(), err
 	}
 	var opts []vuego.LoadOption
 	if short {
 		opts = append(opts, vuego.WithComponents())
 	}
-	data := map[string]any{}
-	for k, v := range c.Data {
-		data[k] = v.Go()
-	}
 	tpl := vuego.NewFS(m, opts...)
-	var buf bytes.Buffer
 	err := tpl.Load("page.vuego").Fill(data).Render(context.Background(), &buf)
 	return buf.String(), err
 }
@@ -818,7 +946,7 @@ type stats struct {
 	omitted                           int
 	jsonDocStatic                     int
 	blankProps                        map[string]int // static / interpolated props with leading or trailing white space
-	literalBound                      int
+	literalBound, dashFM, plainFM     int
 	fills                             map[string]int // slot templates on include tags (slot variable name collisions)
 	jsonTpl                           map[int]int    // json props by number of mustaches
 	readsAsserted, unbalanced         int
@@ -1380,6 +1508,14 @@ func model(c Case) result {
 					r.st.places["component-in-nested-subfolder"]++
 				}
 			}
+			for _, fv := range cp.FM {
+				if strings.Contains(jsonOf(fv.Go()), "---") {
+					r.st.dashFM++
+				}
+				if cp.FMStyle == "plain" && plainYAML(fv.Go()) != "" {
+					r.st.plainFM++
+				}
+			}
 			if cp.EOL == "crlf" && len(cp.FM) > 0 {
 				r.st.crlf++
 			}
@@ -1553,6 +1689,9 @@ func model(c Case) result {
 				r.st.sameCompMulti = true
 			}
 		}
+	}
+	if _, fits := buildRoot(c, c.Root); !fits {
+		r.vague = "page data do not fit the root shape"
 	}
 	for _, cp := range c.Comps {
 		if cp.Name == "" || strings.ContainsAny(cp.Name, "/. -") || !dirOK(cp.Dir) {
@@ -1773,6 +1912,25 @@ func check(c Case) error {
 			return wrap(e)
 		}
 	}
+	// The shape in which the caller hands over the page data makes no difference: the includer's
+	// variables are visible to components - and count for :required - exactly as they do when the
+	// same data come as a map[string]any (whichever way a name that only the includer has counts).
+	if c.Root != "" {
+		outR, errR := renderAs(c, false, "")
+		if (errE == nil) != (errR == nil) {
+			return wrap(fmt.Errorf("root data as %s and as map[string]any disagree (entry %q): %s error=%v, map[string]any error=%v", c.Root, c.Entry, c.Root, errE, errR))
+		}
+		if errE == nil {
+			a, e1 := hx.Frag(outE, hx.Collapse)
+			b, e2 := hx.Frag(outR, hx.Collapse)
+			if e1 != nil || e2 != nil {
+				return wrap(fmt.Errorf("output does not parse: %v %v", e1, e2))
+			}
+			if d := hx.Diff(a, b, hx.Options{}); d != "" {
+				return wrap(fmt.Errorf("root data as %s renders differently from the same data as map[string]any (left=%s, right=map): %s", c.Root, c.Root, d))
+			}
+		}
+	}
 	return nil
 }
 
@@ -1821,6 +1979,11 @@ func classify(c Case) (bool, []string) {
 	add(s.crlf > 0, "frontmatter-file-crlf")
 	add(s.fenceBlanks > 0, "frontmatter-fence-trailing-blanks")
 	add(c.PageCRLF, "page-crlf")
+	add(c.Entry != "", "entry:"+c.Entry)
+	add(c.Root != "", "root-data:"+c.Root)
+	add(c.Root != "" && s.reqScope > 0, "root-data-typed+required-by-includer-scope-only")
+	add(s.dashFM > 0, "frontmatter-value-with-dash-run")
+	add(s.plainFM > 0, "frontmatter-plain-yaml-style")
 	add(s.nullFM > 0, "frontmatter-null")
 	add(s.zeroFM > 0, "frontmatter-zeroish")
 	add(s.caseNames > 0, "required-name-with-uppercase")
@@ -1901,6 +2064,9 @@ func (g *valGen) next(t *rapid.T, label string, allowFalsy, scalarOnly bool) val
 	for {
 		switch rapid.IntRange(0, hi).Draw(t, label) {
 		case 0:
+			if k%4 == 0 { // dash runs inside a value
+				return vals.Str(dashTexts[(k/4)%len(dashTexts)])
+			}
 			return vals.Str(fmt.Sprintf("s%d", k))
 		case 1:
 			if k%3 == 0 { // includer variables / front-matter values that merely start with [ or {
@@ -2067,6 +2233,10 @@ var jsonTemplates = []struct {
 
 // strayPre / strayPost: plain text with stray braces around a well-formed mustache - "}}" before
 // the first "{{", a lone "{{" after it: the mustache is interpolated all the same.
+// dashTexts hold runs of dashes inside a line: front-matter ends at the first LINE that starts
+// with ---, not at the first --- anywhere.
+var dashTexts = []string{"Specials --- today only", "-----", "a---b", "x ---", "--- y", "a --- b --- c", "---"}
+
 // boundLiterals: literals in place of a variable path in a bound prop.
 var boundLiterals = []string{"true", "false", "0", "7", "-3", "1.5", "''", "'s'", "'two words'"}
 
@@ -2364,9 +2534,14 @@ func genCase(rec *ev.Rec, known *kf.File) func(t *rapid.T) Case {
 					if cp.FM == nil {
 						cp.FM = map[string]vals.V{}
 					}
-					if rapid.IntRange(0, 5).Draw(t, fmt.Sprintf("c%d.fmnull.%s", i, nm)) == 0 {
+					switch rapid.IntRange(0, 9).Draw(t, fmt.Sprintf("c%d.fmnull.%s", i, nm)) {
+					case 0, 1:
 						cp.FM[nm] = vals.Nil() // `key:` / `key: ~` / `key: null`
-					} else {
+					case 2:
+						cp.FM[nm] = vals.List("[]any", vals.Str("a---b"), vals.Str(rapid.SampledFrom(dashTexts).Draw(t, fmt.Sprintf("c%d.fmdash.%s", i, nm))), vals.Str("c"))
+					case 3:
+						cp.FM[nm] = vals.Str(rapid.SampledFrom(dashTexts).Draw(t, fmt.Sprintf("c%d.fmdash.%s", i, nm)))
+					default:
 						cp.FM[nm] = g.next(t, fmt.Sprintf("c%d.fmval.%s", i, nm), true, false)
 					}
 				}
@@ -2375,6 +2550,7 @@ func genCase(rec *ev.Rec, known *kf.File) func(t *rapid.T) Case {
 			if rapid.Bool().Draw(t, fmt.Sprintf("c%d.indir", i)) {
 				cp.Dir = rapid.SampledFrom(compDirs).Draw(t, fmt.Sprintf("c%d.dir", i))
 			}
+			cp.FMStyle = rapid.SampledFrom([]string{"", "plain"}).Draw(t, fmt.Sprintf("c%d.fmstyle", i))
 			cp.Slot = rapid.SampledFrom([]string{"", "", "", "default", "named", "both"}).Draw(t, fmt.Sprintf("c%d.slot", i))
 			cp.EOL = rapid.SampledFrom([]string{"", "", "crlf"}).Draw(t, fmt.Sprintf("c%d.eol", i))
 			cp.Fence = rapid.SampledFrom([]string{"", "", "", "open", "close", "both"}).Draw(t, fmt.Sprintf("c%d.fence", i))
@@ -2452,6 +2628,32 @@ func genCase(rec *ev.Rec, known *kf.File) func(t *rapid.T) Case {
 			c.Page = append(c.Page, Inc{Comp: comp, Place: pl, Props: genProps(t, g, c.Names, l, pl), Fill: genFill(t, c.Names, l, pl, rate)})
 		}
 
+		// entry point and shape of the page data. A map[string]string root needs string data only:
+		// every other value becomes a string and the placements (which need the list rows and the
+		// bools ct / cf) go; repair() then rebinds the paths that no longer resolve.
+		c.Entry = rapid.SampledFrom([]string{"", "", "vue-render", "vue-fragment"}).Draw(t, "entry")
+		if rapid.IntRange(0, 7).Draw(t, "typedroot") == 0 {
+			c.Root = "mapss"
+			keys := make([]string, 0, len(c.Data))
+			for k := range c.Data {
+				keys = append(keys, k)
+			}
+			sort.Strings(keys)
+			for i, k := range keys {
+				if _, isStr := c.Data[k].Go().(string); !isStr {
+					c.Data[k] = vals.Str(fmt.Sprintf("r%d", i))
+				}
+			}
+			strip := func(incs []Inc) {
+				for i := range incs {
+					incs[i].Place = nil
+				}
+			}
+			strip(c.Page)
+			for i := range c.Comps {
+				strip(c.Comps[i].Incs)
+			}
+		}
 		if known.Open(kfBraces) {
 			for i, nb := 0, avoidBraces(&c); i < nb; i++ {
 				rec.Excluded(kfBraces)
@@ -3338,6 +3540,116 @@ func enumLiteral(yield func(Case) bool) int {
 	return n
 }
 
+// enumDash: a front-matter value with a run of dashes inside a line (plain scalar, quoted string,
+// list item; JSON or plain YAML style; LF / CRLF) is followed by further keys that must still
+// override a prop and an includer variable.
+func enumDash(yield func(Case) bool) int {
+	n := 0
+	var values []vals.V
+	for _, d := range dashTexts {
+		values = append(values, vals.Str(d))
+	}
+	values = append(values, vals.List("[]any", vals.Str("a---b"), vals.Str("c")), vals.List("[]any", vals.Str("x"), vals.Str("-----"), vals.Str("Specials --- today")))
+	for _, v := range values {
+		for _, style := range []string{"", "plain"} {
+			for z := 0; z < 8; z++ {
+				inData, crlf, nested := z&1 != 0, z&2 != 0, z&4 != 0
+				c := Case{Names: []string{"va1", "vb2", "vc3"}, Print: []string{"d1"}, Data: fixedData(), NestedShort: true,
+					Comps: []Comp{{Name: "CardA", Wrap: z%2 == 0, FMStyle: style, FM: map[string]vals.V{"va1": v, "vb2": vals.Str("later key"), "vc3": vals.Int(3)},
+						Req: []Req{{":required", "vb2, vc3"}}}, {Name: "BoxB", Dir: "posts"}}}
+				if crlf {
+					c.Comps[0].EOL = "crlf"
+				}
+				if inData {
+					c.Data["vb2"] = vals.Str("incl")
+				}
+				inc := Inc{Comp: 0, Props: []Prop{{Name: "vb2", Mode: "static", Text: "prop2"}, {Name: "vc3", Mode: "bind", Path: "d0"}, {Name: "va1", Mode: "static", Text: "prop1"}}}
+				if nested {
+					c.Comps[1].Incs = []Inc{inc}
+					c.Comps[0], c.Comps[1] = c.Comps[1], c.Comps[0]
+					c.Comps[0].Incs[0].Comp = 1
+					c.Page = []Inc{{Comp: 0}}
+				} else {
+					c.Page = []Inc{inc, {Comp: 0}}
+				}
+				n++
+				if !yield(c) {
+					return n
+				}
+			}
+		}
+	}
+	return n
+}
+
+// enumRoot: the page data arrive as map[string]string, map[string][]string, a struct with an
+// embedded struct or a pointer to a struct with an embedded pointer, through the Template API,
+// Vue.Render and Vue.RenderFragment; a component (directly or one level down) requires nothing, a
+// name only the root data supply, such a name plus a prop, or a name nobody supplies.
+func enumRoot(yield func(Case) bool) int {
+	n := 0
+	type shape struct {
+		root  string
+		data  map[string]vals.V
+		names []string // supplied by the root
+	}
+	ls := func(x ...string) vals.V {
+		var l []vals.V
+		for _, e := range x {
+			l = append(l, vals.Str(e))
+		}
+		return vals.List("[]string", l...)
+	}
+	st := func() map[string]vals.V {
+		return map[string]vals.V{"author": vals.Str("ann"), "Count": vals.Int(3), "title": vals.Str("T"), "Tags": ls("a", "b")}
+	}
+	shapes := []shape{
+		{"mapss", map[string]vals.V{"author": vals.Str("ann"), "title": vals.Str("T"), "vb2": vals.Str("incl")}, []string{"author", "title"}},
+		{"mapsl", map[string]vals.V{"Tags": ls("a"), "author": ls("x", "y"), "vb2": ls("v")}, []string{"Tags", "author"}},
+		{"embed", st(), []string{"author", "Count", "title", "Tags"}},
+		{"embedptr", st(), []string{"title", "Tags", "author", "Count"}},
+	}
+	for _, sh := range shapes {
+		for _, entry := range []string{"", "vue-render", "vue-fragment"} {
+			for reqKind := 0; reqKind < 4; reqKind++ {
+				for z := 0; z < 4; z++ {
+					withProp, nested := z&1 != 0, z&2 != 0
+					c := Case{Names: append([]string{"va1", "vb2"}, sh.names...), Data: sh.data, Entry: entry, Root: sh.root, NestedShort: true,
+						Comps: []Comp{{Name: "CardA", Wrap: true}, {Name: "BoxB", Dir: "common"}}}
+					switch reqKind {
+					case 1:
+						c.Comps[0].Req = []Req{{":required", sh.names[0]}}
+					case 2:
+						c.Comps[0].Req = []Req{{":require", sh.names[1]}, {":required", "va1"}}
+					case 3:
+						c.Comps[0].Req = []Req{{":required", sh.names[0] + ", Nope"}}
+					}
+					inc := Inc{Comp: 0}
+					if withProp || reqKind == 2 {
+						inc.Props = []Prop{{Name: "va1", Mode: "static", Text: "st"}}
+					}
+					if withProp {
+						inc.Props = append(inc.Props, Prop{Name: "vb2", Mode: "bind", Path: sh.names[0]})
+					}
+					if nested {
+						c.Comps[1].Incs = []Inc{inc}
+						c.Comps[0], c.Comps[1] = c.Comps[1], c.Comps[0]
+						c.Comps[0].Incs[0].Comp = 1
+						c.Page = []Inc{{Comp: 0}}
+					} else {
+						c.Page = []Inc{inc}
+					}
+					n++
+					if !yield(c) {
+						return n
+					}
+				}
+			}
+		}
+	}
+	return n
+}
+
 // ---------------------------------------------------------------------------------------------
 // Tests
 // ---------------------------------------------------------------------------------------------
@@ -3400,6 +3712,8 @@ func TestProp(t *testing.T) {
 	n13 := enumBraces(each("enum-braces"))
 	n14 := enumBlanks(each("enum-blanks"))
 	n15 := enumLiteral(each("enum-literal"))
+	n16 := enumDash(each("enum-dash"))
+	n17 := enumRoot(each("enum-root"))
 	if shard == 0 {
 		for k := 0; k < skipped; k++ {
 			rec.Excluded(kfFalsy)
@@ -3411,7 +3725,7 @@ func TestProp(t *testing.T) {
 		}
 	}
 	if full && !rec.Failed() {
-		rec.Exhaustive(fmt.Sprintf("flat: %d names x {5 prop modes x front-matter x includer x required} (%d); twice: same component twice, 5^4 prop modes x front-matter x includer (%d); chain: depth-3 chain, one name, 10 states per level x includer x leaf required (%d); types: 33 values (16 of them texts starting with [ or { that are not JSON) x 5 modes x 4 collisions + 7 JSON documents as static props (%d); place: 39 placements (loop, slot content, chain member) x 6 ways of passing va1 x front-matter x includer x required (%d); pool: component with 9..12 bindings followed by loop / slot placements, twice (%d); case: 5 names with upper-case letters x front-matter x includer x 4 :required spellings (%d); fmzero: 10 null / zero-ish front-matter values x 5 prop modes x includer x root template x nesting (%d); jsontpl: 8 JSON literals with 0..2 mustaches x 3 sources x includer x front-matter x nesting (%d); spell: LF/CRLF x fence blanks x prop mode (null spelling rotating) x includer x root template x page CRLF (%d); fill: 3 slot kinds (binding nothing) x 7 sets of slot templates declaring colliding variables x 4 prop modes x includer x root template x nesting (%d); dirs: 17 component folders x 3 file names x required prop provided or not x nesting (%d); braces: 6 texts before x 6 texts after a mustache (stray }} and {{) x includer x nesting (%d); blanks: 20 static / interpolated prop values with leading, trailing, inner blanks, tabs, newlines x includer x nesting x v-for (%d); literal: 9 literals in bound props x : / v-bind: x includer x required x nesting (%d, rewritten to variable paths while C05-literal-bound-prop-dropped is open)", run.Pick(2, 3), n1, n2, n3, n4, n5, n6, n7, n8, n9, n10, n11, n12, n13, n14, n15))
+		rec.Exhaustive(fmt.Sprintf("flat: %d names x {5 prop modes x front-matter x includer x required} (%d); twice: same component twice, 5^4 prop modes x front-matter x includer (%d); chain: depth-3 chain, one name, 10 states per level x includer x leaf required (%d); types: 33 values (16 of them texts starting with [ or { that are not JSON) x 5 modes x 4 collisions + 7 JSON documents as static props (%d); place: 39 placements (loop, slot content, chain member) x 6 ways of passing va1 x front-matter x includer x required (%d); pool: component with 9..12 bindings followed by loop / slot placements, twice (%d); case: 5 names with upper-case letters x front-matter x includer x 4 :required spellings (%d); fmzero: 10 null / zero-ish front-matter values x 5 prop modes x includer x root template x nesting (%d); jsontpl: 8 JSON literals with 0..2 mustaches x 3 sources x includer x front-matter x nesting (%d); spell: LF/CRLF x fence blanks x prop mode (null spelling rotating) x includer x root template x page CRLF (%d); fill: 3 slot kinds (binding nothing) x 7 sets of slot templates declaring colliding variables x 4 prop modes x includer x root template x nesting (%d); dirs: 17 component folders x 3 file names x required prop provided or not x nesting (%d); braces: 6 texts before x 6 texts after a mustache (stray }} and {{) x includer x nesting (%d); blanks: 20 static / interpolated prop values with leading, trailing, inner blanks, tabs, newlines x includer x nesting x v-for (%d); literal: 9 literals in bound props x : / v-bind: x includer x required x nesting (%d, rewritten to variable paths while C05-literal-bound-prop-dropped is open)", run.Pick(2, 3), n1, n2, n3, n4, n5, n6, n7, n8, n9, n10, n11, n12, n13, n14, n15) + fmt.Sprintf("; dash: 9 front-matter values with dash runs x JSON / plain YAML x includer x CRLF x nesting (%d); root: 4 typed root data shapes x 3 entry points x 4 :required lists x prop x nesting (%d)", n16, n17))
 	}
 
 	run.Rapid(t, rec, "random", genCase(rec, known), classify, check)
